@@ -14,9 +14,10 @@ REPORT="logs/san/$ID.$ENGINE.report"
 rm -f "$REPORT".* "$LOG"
 T0=$(date +%s)
 TRIPLE=x86_64-unknown-linux-gnu
-status() { # writes the pass status file read by merge_san.py
-  printf '{"engine":"%s","sections":"%s","status":"%s","reports":%s,"wall_s":%s,"note":"%s"}\n' \
-    "$ENGINE" "$SECTIONS" "$1" "$2" "$(( $(date +%s) - T0 ))" "$3" > "logs/san/$ID.$ENGINE.status.json"
+BUILD_S=0
+status() { # writes the pass status file read by merge_san.py (wall_s includes build_s)
+  printf '{"engine":"%s","sections":"%s","status":"%s","reports":%s,"wall_s":%s,"build_s":%s,"note":"%s"}\n' \
+    "$ENGINE" "$SECTIONS" "$1" "$2" "$(( $(date +%s) - T0 ))" "$BUILD_S" "$3" > "logs/san/$ID.$ENGINE.status.json"
 }
 violation() { # $1 = file that holds the report
   local dst="replay/$ID-$ENGINE-$SEED.report"
@@ -39,6 +40,7 @@ case "$ENGINE" in
       tail -5 "logs/san/build-$ID-$ENGINE.log"
       status inconclusive 0 "build failed"; exit 2
     fi
+    BUILD_S=$(( $(date +%s) - T0 ))
     VERIF_EVIDENCE_TAG="$ENGINE" "harness/target-$ENGINE/$TRIPLE/release/$BIN" \
         --tier quick --seed "$SEED" --only "$SECTIONS" --budget-s "$BUDGET" > "$LOG" 2>&1
     rc=$?
